@@ -325,6 +325,56 @@ def idempotence_fingerprint(L, node, deps, o, steps, o1, o2, mode=""):
 # ----------------------------------------------------------------------------------------------
 # case generation
 
+PROPOSED = {"narrowing:merge-type-parameters-bounded-class-parameter", "narrowing:literal-bool-int-conflated-by-eq"}
+
+
+def bounded_class_tparam(node):
+  return any(it.type_param.bound is not None or it.type_param.constraints for c in node.classes for it in c.template)
+
+
+def unbound_class_tparams(node):
+  """The same unit with the bounds/constraints of class-level type parameters removed (everywhere they occur)."""
+  from pytype.pytd import visitors  # pylint: disable=import-outside-toplevel
+  keys = {it.type_param for c in node.classes for it in c.template}
+
+  class V(visitors.Visitor):
+    def VisitTypeParameter(self, p):
+      return p.Replace(bound=None, constraints=()) if self.old_node in keys or p in keys else p
+  return node.Visit(V())
+
+
+def literal_leg(L, res, r, steps):
+  """(d) msgspec `==` on Literal values: Literal(True) == Literal(1).  Direct oracle on the real Optimize:
+  every original signature's return literal must still be admitted nominally (bool vs int distinguished)."""
+  from pytype.pytd import pytd, optimize  # pylint: disable=import-outside-toplevel
+  out = []
+  stats = collections.Counter()
+  vals = [True, False, 0, 1, 2]
+  for _ in range(40):
+    lits = [r.choice(vals) for _ in range(r.choice([2, 2, 3]))]
+    sigs = tuple(pytd.Signature((), None, None, pytd.Literal(v), (), ()) for v in lits)
+    unit = pytd.TypeDeclUnit("m", (), (), (), (pytd.Function("f0", sigs, pytd.MethodKind.METHOD),), ())
+    o1 = optimize.Optimize(unit)
+    after = []
+    for s in o1.functions[0].signatures:
+      ts = s.return_type.type_list if isinstance(s.return_type, pytd.UnionType) else (s.return_type,)
+      after += [(type(t.value), t.value) for t in ts if isinstance(t, pytd.Literal)]
+    stats["cases"] += 1
+    lost = [v for v in lits if (type(v), v) not in after]
+    mixed = any(type(v) is bool for v in lits) and any(type(v) is int and v in (0, 1) for v in lits)
+    if lost:
+      stats["lost-literal"] += 1
+      if not mixed:
+        out.append(("narrowing:return", "literal %r lost from %r -> %r without a bool/int clash" % (lost, lits, after),
+                    {"kind": "literals", "lits": [repr(v) for v in lits]}))
+      elif not any(fp == "narrowing:literal-bool-int-conflated-by-eq" for fp, _, _ in out):
+        out.append(("narrowing:literal-bool-int-conflated-by-eq",
+                    "def f() -> Literal[%s] overloads optimise to %r: %r is gone (Literal(True) == Literal(1) under msgspec ==)"
+                    % ("], Literal[".join(map(repr, lits)), after, lost), {"kind": "literals", "lits": [repr(v) for v in lits]}))
+  res.extra["literal_leg"] = dict(stats)
+  return out
+
+
 def mk_universe_record(uni):
   return {"names": {str(k): v for k, v in uni.names.items()}, "bases": {str(k): v for k, v in uni.bases.items()},
           "in_node": sorted(uni.in_node)}
@@ -352,7 +402,11 @@ def gen_case(L, r, uni, idx):
   if mode == "n":
     o["can_do_lookup"] = False
     o["deps"] = r.random() < 0.7
-  g = L.Gen(r, uni, "c" if mode == "c" else "n", allow_named_none=(mode == "n"))
+  # generic classes / signatures with TypeParameters; MergeTypeParameters only runs under remove_mutable
+  templates = mode != "t" and r.random() < 0.3
+  if templates:
+    o["remove_mutable"] = r.random() < 0.7
+  g = L.Gen(r, uni, "c" if mode == "c" else "n", allow_named_none=(mode == "n"), templates=templates)
   if mode == "t":
     o["deps"] = False
     g = L.Gen(r, uni, r.choice("cn"), allow_named_none=True)
@@ -361,7 +415,7 @@ def gen_case(L, r, uni, idx):
   node = g.unit(r.choice([1, 2, 2, 3, 4]))
   if mode == "c":
     node = visitors.LookupClasses(node, uni.deps())
-  return dict(mode=mode, o=o, node=node, kindc="U")
+  return dict(mode=mode, o=o, node=node, kindc="U", templates=templates)
 
 
 EDGE_TYPES = [
@@ -606,17 +660,29 @@ def run(res):
               "units with/without deps (as the pytd tool), NamedType units resolved only by the final LookupClasses, bare "
               "types without deps (as print_pytd); max_union in {7,3,0}, remove_mutable on 15%; plus outputs of Optimize "
               "fed back as inputs, 20 hand-picked edge shapes, the corpus, stubs inferred for small programs and "
-              "(thorough) builtins.pytd/typing.pytd.  Non-trivial = Optimize changed the input; distinct by input text.")
+              "(thorough) builtins.pytd/typing.pytd; 30% of the unit cases have generic classes (1-2 class type parameters, "
+              "40% of them bounded/constrained) and signature templates (1-3 function type parameters) with unions of type "
+              "parameters in parameters/returns/mutated types, 70% of those with remove_mutable (MergeTypeParameters); 40 "
+              "overload sets of bool/int Literal returns.  Non-trivial = Optimize changed the input; distinct by input text.")
   res.assumptions = [
       "input ASTs are built by the pytd constructors (unions flat and duplicate-free); the model re-normalises every "
       "union it rebuilds, Node.Visit only when a child changed identity",
       "set/dict membership of pytd nodes = strict structural equality (no hash collisions)",
       "no GenericType based on builtins.object; TupleType based on builtins.tuple/typing.Tuple, CallableType on "
-      "typing.Callable with >=1 parameter; no TypeParameters/templates (MergeTypeParameters reduces to SimplifyUnions on "
-      "signatures); class bases are plain class references; no nested classes",
+      "typing.Callable with >=1 parameter; class bases are plain class references; no nested classes; TypeParameters "
+      "(name, scope, bound, constraints; no default) occur only inside the template that declares them, structurally "
+      "equal to the template item, and bounds/constraints mention no type parameter; a type parameter is read as its "
+      "upper value (constraints, else bound, else Any)",
+      "MergeTypeParameters._AppendNew compares by identity (`is`), the model structurally: the lists differ only by "
+      "later duplicates, which the `seen` set and the final JoinTypes cannot observe; _AllContaining's fuel "
+      "(#collected type parameters + 2) is monitored (exhaustion = model ERR = mismatch), not proved",
+      "Node.Visit's identity short-cut = the always-rebuilding visitor on constructor-built unions "
+      "(visit_identity_shortcut; every UnionType passes through __post_init__)",
+      "Literal values are ints; bool literals are outside the model because msgspec == conflates True with 1 "
+      "(literal_eq_conflation_refuted; monitored by a direct leg)",
       "value oracle: Obj(class, contents per type parameter) / fixed tuples / functions (arity, sample result) / small "
       "ints; callable parameter positions unconstrained (DESIGN, stated limitation)",
-      "CombineContainers fuel 2*size+2 is sufficient (exhaustion would show as model ERR = mismatch)",
+      "(proved, no longer assumed: CombineContainers' fuel 2*size+2 is sufficient, cc_fuel_sufficient)",
       "translator harness/props/c11.py:translate (pass list, flags, callbacks per visitor, literals)"]
   # --- regenerate the pass list from /repo (fail closed)
   steps = None
@@ -750,8 +816,14 @@ def run(res):
       res.sample({"input": c["input"], "opts": c["o"], "optimized_impl": c["impl"]})
     if model_out is not None:
       mo = model_out[idx] or ""
-      mtext, _, mflag = mo.partition("\t")
-      if mtext != c["impl"]:
+      mparts = mo.split("\t")
+      mtext = mparts[0]
+      mflag = mparts[1] if len(mparts) > 1 else ""
+      c["model_second_run_stable"] = (mparts[2] == "R") if len(mparts) > 2 else None
+      if mtext == "ERR" and c["impl"].startswith("EXC:KeyError") and c["o"]["remove_mutable"]:
+        # a TypeParameter outside every enclosing template: ReplaceTypeParameters raises KeyError, the model says None
+        hist["keyerror-out-of-scope-type-parameter"] += 1
+      elif mtext != c["impl"]:
         n_mism += 1
         mism_cases.append(c)
         if n_mism <= 3:
@@ -768,6 +840,7 @@ def run(res):
   fp_hist = collections.Counter()
   t_or = time.time()
   n_widen = n_idem = 0
+  srs = collections.Counter()
   oracle_budget = 600 if thorough else 38
   mism_ids = {id(x) for x in mism_cases}
   for c in mism_cases + [x for x in cases if id(x) not in mism_ids]:
@@ -795,6 +868,12 @@ def run(res):
         hist["oracle-unsupported"] += 1
       if why:
         fp = "narrowing:" + L.narrowing_kind(why)
+        if c["o"]["remove_mutable"] and c["kindc"] == "U" and bounded_class_tparam(c["node"]):
+          # merge_type_parameters_widens_refuted: a bounded/constrained class type parameter absorbs a function one
+          o_unb = L.run_optimize(unbound_class_tparams(c["node"]), uni_c.deps(), c["o"])
+          if not L.unit_narrowing(uni_c.orc, unbound_class_tparams(c["node"]), o_unb, uni_c.vals,
+                                  skip_self_in_classes=True):
+            fp = "narrowing:merge-type-parameters-bounded-class-parameter"
         fp_hist[fp] += 1
         if fp not in viol:
           viol[fp] = (why, c)
@@ -820,11 +899,27 @@ def run(res):
                        "model says Optimize's result is in normal form, yet the real re-run changes it: " + c["impl"][:500])
     if c["kindc"] == "U" and c["o"]["remove_mutable"] is False:
       n_stable_checked += 1
+    if c["kindc"] == "U" and c.get("model_second_run_stable") is not None:
+      srs["checked"] += 1
+      if c["model_second_run_stable"]:
+        srs["model-stable"] += 1
+        if not idem:
+          res.obligation("second-run-stable-fixpoint:" + c["name"], False,
+                         "model says every enabled step fixes Optimize's result, yet the real re-run changes it: "
+                         + c["impl"][:500])
+      elif idem:
+        # the converse (no step undoes another): not proved, monitored
+        srs["idempotent-but-some-step-changes"] += 1
     if not idem:
       fp = idempotence_fingerprint(L, c["node"], uni_c.deps(), c["o"], steps, c["o1"], o2, c["mode"])
       fp_hist[fp] += 1
       if fp not in viol:
         viol[fp] = ("Optimize(Optimize(x)) != Optimize(x): once=%s twice=%s" % (c["impl"][:300], o2_text[:300]), c)
+  res.obligation("monitored:second-run-stable-iff-real-fixpoint", srs["idempotent-but-some-step-changes"] == 0,
+                 "%d results checked, %d second_run_stable in the model (all real fixed points); %d real fixed points "
+                 "on which some modelled step is not the identity (converse of second_run_stable_fixpoint)"
+                 % (srs["checked"], srs["model-stable"], srs["idempotent-but-some-step-changes"]))
+  res.extra["second_run"] = dict(srs)
   res.obligation("monitored:normal-form-implies-fixpoint", True,
                  "%d results in normal form (of %d lossless unit cases), all fixed points of the real Optimize"
                  % (n_stable, n_stable_checked))
@@ -876,6 +971,11 @@ def run(res):
   except Exception as e:  # pylint: disable=broad-except
     import traceback  # pylint: disable=import-outside-toplevel
     res.obligation("emitted-stubs-leg", False, traceback.format_exc()[-1500:])
+  try:
+    prog_viol += literal_leg(L, res, r, steps)
+  except Exception:  # pylint: disable=broad-except
+    import traceback  # pylint: disable=import-outside-toplevel
+    res.obligation("literal-eq-leg", False, traceback.format_exc()[-1500:])
   for fp, what, rep in prog_viol:
     fp_hist[fp] += 1
     if fp not in viol:
